@@ -15,3 +15,14 @@ claim("C11", "TokenAuth", "fault_enumeration", "§6 C11",
   TB + "Abstract positions expand to all concrete character/bit/byte/length/offset positions in thorough, a seeded sample in quick; outcomes the statement leaves open are 'either'; time boundaries use >= 5 s margins (no sub-second boundary is asserted).",
   "TLA+ spec + TLC behaviour generation; replay through a message-aware relay between real cedar client and server; independent AKEP2/JWT reference peer and oracle",
   "spec/TokenAuth.tla", "TLA+ spec of the AKEP2 token exchange with symbolic MAC/KDF and a single-deviation catalogue; harness/internal/tokreplay replays it")
+
+claim("C08", "ClassAdWire+LiteralShortcut", "model_checking", "§6 C08",
+  "TLC model-checks LiteralShortcut.tla (the decoder's literal fast path transcribed as a case analysis over a 15-token alphabet vs the grammar's class of a lone literal: ShortcutSound) and ClassAdWire.tla (wire layout, three receivers: SameConsumption, AttrSetPreserved) and enumerates every text <= 4 (quick) / 5 (thorough) tokens and every ad shape; each is replayed through the real PutClassAd*/stream/GetClassAd*/GetClassAdRaw/SkipClassAdRaw on plain and encrypted, single- and multi-frame streams; the value oracle is the classad library's full parser (named by the statement).",
+  TB + "Value semantics are decided by parser.ParseExpr, not by TLA+ (the model's class prediction is cross-checked against it on every text); expression values beyond the alphabet come from a Go grammar pool (depth <= 2 exhaustive, deeper seeded); texts the full parser rejects are outside the statement.",
+  "TLA+ model checking (TLC) + replay of TLC-enumerated texts/ad shapes into the real encoder/decoders; full-parser value oracle",
+  "spec/ClassAdWire.tla", "TLA+ specs of the ClassAd wire layout / privacy table (ClassAdWire.tla) and of the literal fast path (LiteralShortcut.tla); harness/internal/adwire replays them")
+claim("C09", "ClassAdWire+LiteralShortcut", "model_checking", "§6 C09",
+  "The whole privacy decision table (46 656 rows: attribute class x spelling x option bits x whitelist x peer version x stream state) is enumerated by TLC from ClassAdWire.tla with the invariants DefaultDeny, NoPrivateOverridesInclude, V2VersionGate, SecretsOnlyInsideEncryptedFrames, ReceiverReassembles; every row is replayed with the real PutClassAdWithOptions on a recording stream in the three stream states; the reference AES-GCM opener classifies every frame, a canary search covers all emitted bytes, and the real receivers reassemble the ad.",
+  TB + "The fixed private names and the 9.9.0 cut-off come from HTCondor; 'omitted' is always allowed for a private attribute (the statement only forbids leaking); whitelists are spelled exactly (the statement is silent on whitelist case).",
+  "TLA+ model checking (TLC) of the decision table + replay of every row into the real serialiser with canary search",
+  "spec/ClassAdWire.tla")
